@@ -102,6 +102,21 @@ def run(ctx):
             if len(pool) < 200:
                 pool.append(p)
             members.append(p)
+        if k >= 2 and rng.random() < 0.3:
+            # the same property stated twice (other annotations, or an equivalent time unit) must stay two properties
+            j = rng.randrange(k)
+            src = members[rng.randrange(k)]
+            other_meta = tuple(m for m in (('id', 'again_%d' % i), ('title', '"stated again"')) if rng.random() < 0.7)
+            pat = src[3]
+            if pat[4] is not None and pat[4][1] == 's' and rng.random() < 0.5:
+                try:
+                    ms = float(pat[4][0]) * 1000
+                    if ms == int(ms) and ms < 1e15:
+                        pat = pat[:4] + ((str(int(ms)), 'ms'),)
+                except (ValueError, OverflowError):
+                    pass
+            members[j] = ('prop', other_meta, src[2], pat)
+            ctx.count('files_with_repeated_property')
         fault = None
         if rng.random() < 0.34:
             fault = gen.pick(rng, FAULTS)
